@@ -165,6 +165,20 @@ class SymVC(BaseVC):
                 a[i, j] = self.real(f"{name}[{i},{j}]", lo, hi)
         return a
 
+    def lvec(self, name):
+        """abstract 3-vector of the orthogonal-word algebra (pyvc.orth)"""
+        from . import orth
+        self.gvec(name)
+        return orth.LVec.base(name)
+
+    def lstate(self, name):
+        from . import orth
+        return orth.LState(self.lvec(name + ".r"), self.lvec(name + ".v"))
+
+    def gstate(self, name):
+        from . import orth
+        return orth.LState(self.gvec(name + ".r"), self.gvec(name + ".v"))
+
     def gvec(self, name):
         for other in list(self.c.gram_names) + [name]:
             a, b = sorted((name, other))
@@ -197,6 +211,9 @@ class SymVC(BaseVC):
         return _S()
 
     def eq(self, a, b, tol=None):
+        from . import orth
+        if isinstance(a, (orth.LVec, orth.LMat, orth.LState)):
+            return orth.leq(a, b)
         if isinstance(a, np.ndarray) or isinstance(b, np.ndarray):
             a, b = np.asarray(a, dtype=object), np.asarray(b, dtype=object)
             if a.shape != b.shape:
@@ -210,6 +227,13 @@ class SymVC(BaseVC):
 
     def lt(self, a, b, tol=None):
         return a < b
+
+    def close(self, a, b, tol):
+        """|a-b| <= tol (same absolute tolerance in both modes; arrays element-wise)"""
+        if isinstance(a, np.ndarray) or isinstance(b, np.ndarray):
+            a, b = np.asarray(a, dtype=object), np.asarray(b, dtype=object)
+            return sym.And([sym.sbool(abs(x - y) <= tol) for x, y in zip(a.flat, np.broadcast_to(b, a.shape).flat)])
+        return abs(a - b) <= tol
 
     def fmode(self, on=True):
         self.c.fmode = on
@@ -352,6 +376,15 @@ class ConcVC(BaseVC):
     def mat(self, name, n, m, lo=None, hi=None):
         return np.array([[self.real(f"{name}[{i},{j}]", lo, hi) for j in range(m)] for i in range(n)], dtype=float)
 
+    def lvec(self, name):
+        return self.gvec(name)
+
+    def lstate(self, name):
+        return np.concatenate([self.gvec(name + ".r"), self.vec(name + ".v", 3, -10.0, 10.0)])
+
+    def gstate(self, name):
+        return np.concatenate([self.gvec(name + ".r"), self.gvec(name + ".v") * 2e-4])
+
     def gvec(self, name):
         """Realise a Gram-matrix model as concrete 3-vectors (incremental Cholesky), else sample."""
         prev = getattr(self, "_gv", None)
@@ -398,6 +431,9 @@ class ConcVC(BaseVC):
         if a.shape != b.shape:
             return False
         return bool(np.all(np.abs(a - b) <= tol * (1.0 + np.maximum(np.abs(a), np.abs(b)))))
+
+    def close(self, a, b, tol):
+        return bool(np.all(np.abs(np.asarray(a, dtype=float) - np.asarray(b, dtype=float)) <= tol))
 
     def le(self, a, b, tol=1e-9):
         return a <= b + tol * (1 + abs(a) + abs(b))
@@ -589,8 +625,71 @@ def discharge(o, inputs, opts, scale=None):
     return {"verdict": "unsat", "backend": backends[0] if len(set(backends)) == 1 else "+".join(sorted(set(backends))), "seconds": total}
 
 
+def _race(jobs, hard_s):
+    """Run the solver jobs concurrently in forked children; first sat/unsat wins, the rest are killed."""
+    import pickle
+    import select
+    import signal
+    procs = {}
+    for label, fn in jobs:
+        r, w = os.pipe()
+        pid = os.fork()
+        if pid == 0:
+            try:
+                os.close(r)
+                try:
+                    out = fn()
+                except BaseException as e:  # noqa
+                    out = ("unknown", None, f"{type(e).__name__}: {e}")
+                with os.fdopen(w, "wb") as f:
+                    pickle.dump(out, f)
+            finally:
+                os._exit(0)
+        os.close(w)
+        procs[r] = (pid, label, b"")
+    deadline = time.time() + hard_s
+    result = ("unknown", None, "all back ends unknown")
+    open_fds = set(procs)
+    while open_fds:
+        left = deadline - time.time()
+        if left <= 0:
+            result = ("unknown", None, "hard time-out")
+            break
+        rl, _, _ = select.select(list(open_fds), [], [], left)
+        done = False
+        for fd in rl:
+            chunk = os.read(fd, 1 << 16)
+            pid, label, buf = procs[fd]
+            if chunk:
+                procs[fd] = (pid, label, buf + chunk)
+                continue
+            open_fds.discard(fd)
+            try:
+                out = pickle.loads(buf)
+            except Exception:
+                out = ("unknown", None, label)
+            if out[0] in ("sat", "unsat"):
+                result = (out[0], out[1], label)
+                done = True
+                break
+        if done:
+            break
+    for fd, (pid, label, buf) in procs.items():
+        try:
+            os.kill(pid, signal.SIGKILL)
+        except ProcessLookupError:
+            pass
+        try:
+            os.waitpid(pid, 0)
+        except ChildProcessError:
+            pass
+        os.close(fd)
+    return result
+
+
 def _discharge1(o, inputs, opts, scale=None):
-    """Returns dict(verdict=unsat|sat|unknown|vacuous, backend, seconds, model)."""
+    """Returns dict(verdict=unsat|sat|unknown, backend, seconds, model).  Back ends raced: z3 (default smt),
+    z3 nlsat tactic, cvc5; a first quick attempt uses the path condition without axioms (fewer hypotheses)."""
     tmo = int(opts.get("timeout_ms", 20000))
     fml = list(o.axioms) + list(o.pc) + [z3.Not(o.goal)]
     goal_s = z3.simplify(o.goal)
@@ -598,35 +697,28 @@ def _discharge1(o, inputs, opts, scale=None):
         return {"verdict": "unsat", "backend": "simplify", "seconds": 0.0}
     t0 = time.time()
 
-    def job():
-        if o.axioms and opts.get("try_without_axioms", True):
-            s0, r0, dt0 = _solve_z3(list(o.pc) + [z3.Not(o.goal)], min(tmo, 3000))
-            if r0 == "unsat":  # fewer hypotheses: still a proof
-                return ("unsat", None, "z3(pc-only)")
-        s, r, dt = _solve_z3(fml, tmo, opts.get("rlimit"))
-        backend = "z3"
-        if r == "unknown":
-            for tac in opts.get("tactics", ["qfnra-nlsat"]):
-                s2, r2, dt = _solve_z3_tactic(fml, tmo, tac)
-                if r2 != "unknown":
-                    s, r, backend = s2, r2, f"z3:{tac}"
-                    break
-        mv = None
-        if r == "sat":
-            try:
-                mv = _model_values(s, inputs, scale)
-            except Exception:
-                mv = None
-        return (r, mv, backend)
+    def with_model(solve):
+        def job():
+            s, r, dt = solve()
+            mv = None
+            if r == "sat":
+                try:
+                    mv = _model_values(s, inputs, scale)
+                except Exception:
+                    mv = None
+            return (r, mv, "")
+        return job
 
-    n_tac = 1 + len(opts.get("tactics", ["qfnra-nlsat"]))
-    r, mv, backend = _forked(job, n_tac * tmo / 1000 + 5)
-    if r == "unknown" and opts.get("cvc5", True):
-        r3, dt = _solve_cvc5(fml, tmo)
-        if r3 == "unsat":
-            return {"verdict": "unsat", "backend": "cvc5", "seconds": time.time() - t0}
-        if r3 == "sat":
-            return {"verdict": "sat", "backend": "cvc5", "seconds": time.time() - t0, "model": None}
+    if o.axioms and opts.get("try_without_axioms", True):
+        r0 = _forked(lambda: (_solve_z3(list(o.pc) + [z3.Not(o.goal)], min(tmo, 3000))[1], None, ""), 6)
+        if r0[0] == "unsat":  # fewer hypotheses: still a proof
+            return {"verdict": "unsat", "backend": "z3(pc-only)", "seconds": time.time() - t0}
+    jobs = [("z3", with_model(lambda: _solve_z3(fml, tmo, opts.get("rlimit"))))]
+    for tac in opts.get("tactics", ["qfnra-nlsat"]):
+        jobs.append((f"z3:{tac}", with_model(lambda tac=tac: _solve_z3_tactic(fml, tmo, tac))))
+    if opts.get("cvc5", True):
+        jobs.append(("cvc5", lambda: (_solve_cvc5(fml, tmo)[0], None, "")))
+    r, mv, backend = _race(jobs, tmo / 1000 + 5)
     total = time.time() - t0
     if r == "unsat":
         return {"verdict": "unsat", "backend": backend, "seconds": total}
